@@ -1,4 +1,4 @@
-(* GENERATED from the Go sources of /var/tmp/mrepo by /verif/tools/gen_model — do not edit. *)
+(* GENERATED from the Go sources of /repo by /verif/tools/gen_model — do not edit. *)
 From Coq Require Import String.
 From OtpV Require Import Prelude Sha GoSem Rfc4648 Errors Decoder Otp Ocra Utils Suite Url.
 Open Scope N_scope.
